@@ -421,6 +421,9 @@ pub fn run(args: &Args) {
         }
         // argument order / laziness with recording functions used as arguments
         order_probe(&mut rep, &mut rng, &mut next_id);
+        if h % 8 == 0 {
+            no_element_no_call(&mut rep, &mut next_id);
+        }
         for _ in 0..6 {
             operand_probe(&mut rep, &mut rng, &mut next_id);
         }
@@ -504,7 +507,11 @@ fn operand_probe(rep: &mut Report, rng: &mut Rng, next_id: &mut u64) {
     let (y, _) = OPERANDS[rng.below(OPERANDS.len())];
     let op = OPS[rng.below(OPS.len())];
     let form = rng.below(4);
+    // sometimes one operand is a bare literal / member instead of a call: the call on the other side is still made
+    let bare = rng.below(4);
     let text = match form {
+        0 if bare == 0 => format!("{} {} r2({})", x, op, y),
+        0 if bare == 1 => format!("r1({}) {} {}", x, op, y),
         0 => format!("r1({}) {} r2({})", x, op, y),
         1 => format!("recs[?r1({}) {} r2({})] | [0]", x, op, y),
         2 => format!("[r1({}), r2({})]", x, y),
@@ -516,7 +523,11 @@ fn operand_probe(rep: &mut Report, rng: &mut Rng, next_id: &mut u64) {
         (0, "||") | (1, "||") => !xt,
         _ => true,
     };
-    let want: Vec<u64> = if right_runs { vec![i1, i2] } else { vec![i1] };
+    let want: Vec<u64> = match (form, bare) {
+        (0, 0) => if right_runs { vec![i2] } else { vec![] },
+        (0, 1) => vec![i1],
+        _ => if right_runs { vec![i1, i2] } else { vec![i1] },
+    };
     rep.evaluations += 1;
     LOG.with(|l| l.borrow_mut().clear());
     let got = guarded(|| rt.compile(&text).and_then(|e| e.search(rcvar_of(&doc))));
@@ -531,6 +542,36 @@ fn operand_probe(rep: &mut Report, rng: &mut Rng, next_id: &mut u64) {
             json!({"expression": text, "document": doc, "expected_calls(r1=first id, r2=second)": want, "observed_calls": log,
                    "result": format!("{:?}", got.map(|r| r.map(|v| v.to_string()).map_err(|e| e.to_string())))}),
         );
+    }
+}
+
+/// No element, no call: over an empty array the body of an expression reference / the right-hand
+/// side of a projection is never evaluated, so it neither calls anything nor resolves any name.
+fn no_element_no_call(rep: &mut Report, next_id: &mut u64) {
+    let mut rt = Runtime::new();
+    rt.register_builtin_functions();
+    *next_id += 1;
+    let id = *next_id;
+    rt.register_function("r1", Box::new(recorder(id, true)));
+    let doc = json!({"none": [], "xs": [1, 20, 3]});
+    for (text, want) in [
+        ("map(&nosuch(@), none)", json!([])), ("map(&r1(@), none)", json!([])), ("none[*].nosuch(@)", json!([])), ("none[?nosuch(@)]", json!([])), ("sort_by(none, &nosuch(@))", json!([])),
+        ("max_by(none, &r1(@))", json!(null)), ("map(&nosuch(@), xs[?@ > `100`])", json!([])), ("none[].r1(@)", json!([])), ("map(&abs(nosuch(@)), none)", json!([])),
+        ("xs[?@ > `100`][*].r1(@) | length(@)", json!(0)),
+    ] {
+        rep.evaluations += 1;
+        LOG.with(|l| l.borrow_mut().clear());
+        let got = guarded(|| rt.compile(text).and_then(|e| e.search(rcvar_of(&doc))));
+        let calls = LOG.with(|l| l.borrow().len());
+        let ok = matches!(&got, Ok(Ok(v)) if value_of(v).map_or(false, |g| g == want)) && calls == 0;
+        if ok {
+            rep.count("no_element_no_call_ok");
+        } else {
+            rep.violation(
+                "C15/body-evaluated-or-name-resolved-without-an-element",
+                json!({"expression": text, "document": doc, "expected": want, "calls_recorded": calls, "got": format!("{:?}", got.map(|r| r.map(|v| v.to_string()).map_err(|e| e.to_string())))}),
+            );
+        }
     }
 }
 
